@@ -183,8 +183,12 @@ VALID_CALLS = {"core.is_valid_python": ("uf", "bool"), "_do_rewrite": ("uf", "st
 apply_rewrites = Unit(
     "processing", "_apply_rewrites",
     params={"source": "str", "rewrites": ("seq", SCHED_ENTRY)}, returns="str",
-    ensures=[("valid-or-unchanged", "result == source or core.is_valid_python(result)")],
-    loops={0: {"inv": ["True"]}},
+    ensures=[("valid-or-unchanged", "result == source or core.is_valid_python(result)"),
+             # "If the combined result of a pass would not parse, the pass leaves the text as it was" - and only then: whatever is returned, every
+             # scheduled rewrite has been applied to the text first (no rewrite is skipped, the pass is not abandoned half way: a validity test
+             # can only look at the COMBINED text)
+             ("every-scheduled-rewrite-is-applied-before-the-pass-is-judged", "__calls__do_rewrite__ == len(rewrites)")],
+    loops={0: {"inv": ["__calls__do_rewrite__ == _i"]}},
     calls=VALID_CALLS, records=RECORDS, props=("C10", "C03"),
 )
 
